@@ -1,4 +1,5 @@
 import Swat4.Drv.UCRun
+import Swat4.Spec.ProbeOutcome
 /-!
 Driver side of C13.
 
@@ -22,19 +23,25 @@ open Swat4 Swat4.Drv Swat4.UC Std
 
 def goalOf (s : String) : Option Goal := if s = "1" then some .port else if s = "0" then some .details else none
 
+def outcomeOf (s : String) : Option Swat4.C13.Outcome :=
+  if s = "success" then some .success else if s = "retry" then some .retry else if s = "failure" then some .failure else none
+
+/-- op `table`.  The two arguments of the verdict differ in origin: "model = implementation" compares with the executable model
+(`UC.successStatus / retryStatus / failureStatus`), the ORACLE compares the implementation's word with the declarative per-bit
+specification `Swat4.C13.specWord` (`Spec/ProbeOutcome.lean`, written from the property text; proved equal to the model on every
+word by `Swat4.C13.outcome_table`). -/
 def handleTable (goal outcome word got : String) : Verdict :=
-  match goalOf goal, word.toNat?, got.toNat? with
-  | some g, some w, some got =>
+  match goalOf goal, word.toNat?, got.toNat?, outcomeOf outcome with
+  | some g, some w, some got, some o =>
     let w9 : Status := BitVec.ofNat 9 w
-    let exp := match outcome with
-      | "success" => some (successStatus g w9)
-      | "retry" => some (retryStatus g w9)
-      | "failure" => some (failureStatus g w9)
-      | _ => none
-    match exp with
-    | some e => verdict (e.toNat == got) (e.toNat == got) s!"model={e.toNat}"
-    | none => .bad "outcome"
-  | _, _, _ => .bad "C13 table parse"
+    let e : Status := match o with
+      | .success => successStatus g w9
+      | .retry => retryStatus g w9
+      | .failure => failureStatus g w9
+    let spec := Swat4.C13.specWord g o w9.toNat
+    verdict (e.toNat == got) (spec == got) s!"sig=outcome-table model={e.toNat} spec={spec}"
+  | _, _, _, none => .bad "outcome"
+  | _, _, _, _ => .bad "C13 table parse"
 
 /-- status transformation a client applies when one of its registry writes commits, given how it ended -/
 def statusIntent (sp : USpec) (result : String) (callName : String) : Status → Status :=
@@ -166,7 +173,17 @@ def handleUC (initS clientS : String) (out : List String) : Verdict :=
           match c.splitOn ":" with
           | [i, name] => if name == "add" || name == "update" then i.toNat?.map fun i => (i, name) else none
           | _ => none
-        let removed := (icalls.splitOn ",").any fun c => c.endsWith ":remove"
+        -- a committed `remove` makes the fold inapplicable — but only a remove OF THE PROBED ADDRESS: by a `remove` client
+        -- naming it, by a raw `remove` call on it, or by a cleaner after whose pass the address is gone from the dump
+        let removed := (icalls.splitOn ",").any fun c =>
+          match c.splitOn ":" with
+          | [i, "remove"] =>
+            (match i.toNat?.bind fun i => (specs[i]? : Option USpec) with
+             | some (USpec.remove _ ad) => ad.render == a
+             | some (USpec.raw (.w .remove svr _)) => svr.addr.render == a
+             | some (USpec.clean _) => (svStatus idump a).isNone
+             | _ => false)
+          | _ => false
         let expected := w0.map fun w => commits.foldl (fun w (i, name) =>
           match (specs[i]? : Option USpec) with
           | some sp => statusIntent sp (results.getD i "") name w
